@@ -16,10 +16,11 @@ pub struct Case {
 
 const CONST_BYTES: usize = 64 << 20;
 
-fn check_call(what: &str, n: usize, p: usize, peak: usize, served: u64) -> Result<(), String> {
-    let mem_bound = CONST_BYTES + 512 * n * (p + 1);
+fn check_call(what: &str, n: usize, _p: usize, peak: usize, served: u64) -> Result<(), String> {
+    // one packet decodes to at most 8 values per packet byte over all its streams (1-bit records), 16 to 24 bytes each
+    let mem_bound = CONST_BYTES + 1024 * n;
     if peak > mem_bound {
-        return Err(format!("{what}: one call grew the heap by {peak} bytes; bound is 64 MiB + 512 x input size {n} x (prototype length {p} + 1) = {mem_bound}"));
+        return Err(format!("{what}: one call grew the heap by {peak} bytes; bound is 64 MiB + 1024 x input size {n} = {mem_bound}"));
     }
     let io_bound = 2 * n as u64 + 65536;
     if served > io_bound {
@@ -140,17 +141,27 @@ impl Check for C09 {
          emptied prototypes / containers, huge recordCount, huge lengths and offsets in file / section / packet / blob headers, stream lengths, DOCTYPE entity definitions referenced thousands of times, chains of overlapping packet headers whose declared length is smaller than their streams, thousands of added records, deep \
          nesting). Every iterator is driven to its first Err or None (harness cap: 3e6 / prototype length items, at most 200000) and every blob is \
          extracted, in a worker process with an address space limit and a counting allocator. Deterministic oracles per single call (new, iterator \
-         creation, each next(), each blob()): peak heap growth <= 64 MiB + 512 x input size x (prototype length + 1); bytes read from the device \
+         creation, each next(), each blob()): peak heap growth <= 64 MiB + 1024 x input size; bytes read from the device \
          <= 2 x input size + 64 KiB; an iterator never yields more than recordCount items; blob() returning Ok(k) wrote exactly k <= input size \
          bytes. Backstop: 20 s watchdog per case, confirmed alone with 60 s (confirmed => violation, unconfirmed => exit 2). Non-trivial: \
          script containing a resource-relevant mutation and passing open."
             .into()
     }
     fn assumptions() -> Vec<String> {
-        vec!["the memory bound is linear in input size times prototype length: decoding one packet legitimately yields up to 8 x packet bytes values per record".into()]
+        vec!["the memory bound is linear in the input size: one packet legitimately decodes to up to 8 values per packet byte over all its streams".into()]
     }
     fn budget(t: Tier) -> usize {
         t.pick(100_000, 2_000_000)
+    }
+    fn fixed(_t: Tier) -> Vec<Case> {
+        // spec-conforming files whose prototypes are dominated by constant records (minimum = maximum)
+        [(40u16, 20_000u32), (400, 100_000), (1500, 150_000), (3000, 440_000)]
+            .iter()
+            .map(|(consts, points)| Case { script: Script { seed: crate::untrusted::Seed::ConstHeavy { consts: *consts, points: *points }, muts: vec![], reseal: true } })
+            .collect()
+    }
+    fn describe_fixed(_t: Tier) -> Option<String> {
+        Some("4 hand-built conforming files: a 1-bit record followed by 40 .. 3000 constant records, one data packet with 20 000 .. 440 000 points".into())
     }
     fn gen(s: &mut Src, _t: Tier) -> Case {
         let mut script = gen_script(s);
